@@ -24,6 +24,9 @@ Qed.
 Lemma add_pass_pend x fs fr : pend_names (fund (add_pass x fs fr)) = pend_names (fund fr).
 Proof. unfold add_pass. destruct (existsb _ _); [reflexivity|]. cbn. rewrite pend_names_app. cbn. apply app_nil_r. Qed.
 
+Lemma add_pass_args x fs fr : arg_names (fund (add_pass x fs fr)) = arg_names (fund fr).
+Proof. unfold add_pass. destruct (existsb _ _); [reflexivity|]. cbn. rewrite arg_names_app. cbn. apply app_nil_r. Qed.
+
 Lemma add_pass_narg x fs fr n :
   (n <= length (fund fr))%nat ->
   (n <= length (fund (add_pass x fs fr)))%nat /\ firstn n (fund (add_pass x fs fr)) = firstn n (fund fr).
@@ -71,7 +74,7 @@ Proof.
     assert (Hshape : shape (rest ++ (T, prT) :: zpost) = shape (map (pass_frame x (fid T)) rest ++ (decl_frame T decl x, prT) :: zpost))
       by (symmetry; apply shape_declare).
     apply (frame_ok_shape _ _ _ _ Hshape).
-    destruct K as [K1 K2 K3 K4 K5 K6 K7 K8 K9].
+    destruct K as [K1 K2 K3 K4 K5 K6 K7 K8 K9 K10 K11 K12].
     destruct (add_pass_shape x (fid T) g) as (E1 & E2 & E3 & E4).
     constructor.
     + rewrite E3. exact K1.
@@ -87,8 +90,12 @@ Proof.
     + rewrite add_pass_pend. exact K6.
     + rewrite E4. destruct K7 as [K7a K7b]. destruct (add_pass_narg x (fid T) g (fnarg g) K7a) as [N1 N2].
       split; [exact N1|rewrite N2; exact K7b].
-    + rewrite E1. exact K8.
-    + rewrite E2, add_pass_fnfor. exact K9.
+    + intros y Hy. rewrite E4. destruct K7 as [K7a K7b]. destruct (add_pass_narg x (fid T) g (fnarg g) K7a) as [N1 N2]. rewrite N2.
+      apply K8. apply add_pass_fund_inv in Hy. destruct Hy as [Hy|Hy]; [exact Hy|discriminate].
+    + rewrite add_pass_args. exact K9.
+    + rewrite E1. exact K10.
+    + rewrite E2, add_pass_fnfor. exact K11.
+    + rewrite E4. exact K12.
 Qed.
 
 Lemma drop_to_pre zpre T prT zpost :
@@ -114,7 +121,7 @@ Lemma L_declare a zpre T prT zpost decl x :
   AInv a' z' /\ shape z' = shape z /\
   map (final (env_of z)) (alog a') = TBind (fid T) false x :: map (final (env_of z)) (alog a).
 Proof.
-  intros [As Af An Al] Hpre Hfunc Hp Hk Harg z z' a'.
+  intros [As Af An Al Aa] Hpre Hfunc Hp Hk Harg z z' a'.
   assert (Hshape : shape z' = shape z) by apply shape_declare.
   assert (KT : frame_ok T prT zpost).
   { clear -Af. induction zpre as [|[gg pgg] rst IHz]; cbn in Af; [apply Af|apply IHz; apply Af]. }
@@ -135,6 +142,16 @@ Proof.
         apply add_pass_fund. exact Hu.
       * subst fp. cbn [fst] in *. exists (decl_frame T decl x, prT). split; [apply in_app_iff; right; left; reflexivity|].
         cbn [fst]. destruct (decl_frame_shape T decl x) as [-> _]. split; [exact Hs|]. apply Hkeep; [symmetry; exact Hs|exact Hu].
+      * exists fp. split; [apply in_app_iff; right; right; exact Hfp|]. split; assumption.
+    + intros s y Hin. cbn [alog a'] in Hin. destruct Hin as [E|Hin]; [discriminate|].
+      destruct (decl_log_arg T decl x (alog a) s y Hin) as [Hold Hkeep].
+      destruct (Aa s y Hold) as (fp & Hfp & Hs & Hu). unfold z in Hfp. apply in_app_iff in Hfp.
+      destruct Hfp as [Hfp|[Efp|Hfp]].
+      * exists (pass_frame x (fid T) fp). split; [apply in_app_iff; left; apply in_map; exact Hfp|].
+        unfold pass_frame. cbn [fst]. destruct (add_pass_shape x (fid T) (fst fp)) as (-> & _). split; [exact Hs|].
+        apply add_pass_fund. exact Hu.
+      * subst fp. cbn [fst] in *. exists (decl_frame T decl x, prT). split; [apply in_app_iff; right; left; reflexivity|].
+        cbn [fst]. destruct (decl_frame_shape T decl x) as [-> _]. split; [exact Hs|]. apply Hkeep. exact Hu.
       * exists fp. split; [apply in_app_iff; right; right; exact Hfp|]. split; assumption.
   - cbn [alog a' map final]. f_equal. apply (decl_log_final T prT zpost decl x); [exact KT|exact Hp|].
     apply drop_to_pre. exact Af.
@@ -230,7 +247,8 @@ Lemma L_decl_var a z decl x :
          In x (dnames T') /\ (forall y, In y (dnames T) -> In y (dnames T')) /\
          (forall y, In y (dnames T') -> In y (dnames T) \/ y = x) /\
          (forall e, In e (fund T') -> In e (fund T)) /\
-         (forall g g', In (g, g') (combine zpre zpre') -> forall y, In (UPend y) (fund (fst g')) <-> In (UPend y) (fund (fst g)))).
+         (forall g g', In (g, g') (combine zpre zpre') -> forall y, In (UPend y) (fund (fst g')) <-> In (UPend y) (fund (fst g))) /\
+         (forall g g', In (g, g') (combine zpre zpre') -> forall y, In (UArg y) (fund (fst g')) -> In (UArg y) (fund (fst g)))).
 Proof.
   intros A Hd Hv.
   destruct (walk_ok decl x z (A_frames _ _ A) Hv) as (zpre & T & prT & zpost & Ez & Ew & HfT & HpT & Hpre & Hfid).
@@ -269,9 +287,12 @@ Proof.
     destruct (add_pass_shape x (fid T) (fst g0)) as (_ & -> & _). apply Hpre. exact Hg0. }
   split; [destruct (decl_frame_shape T decl x) as [_ ->]; exact HfT|].
   split; [apply decl_frame_in|]. split; [intros y; apply decl_frame_mono|]. split; [intros y; apply decl_frame_new|].
-  split; [intros e; apply decl_frame_fund_in|].
-  intros g g' Hin y. clear -Hin. revert Hin. induction zpre as [|[h ph] rest IH]; cbn; [tauto|].
-  intros [E|Hin]; [|apply IH; exact Hin]. inversion E; subst. cbn [fst pass_frame]. split.
-  - intros H. apply add_pass_fund_inv in H. destruct H as [H|H]; [exact H|discriminate].
-  - apply add_pass_fund.
+  split; [intros e; apply decl_frame_fund_in|]. split.
+  - intros g g' Hin y. clear -Hin. revert Hin. induction zpre as [|[h ph] rest IH]; cbn; [tauto|].
+    intros [E|Hin]; [|apply IH; exact Hin]. inversion E; subst. cbn [fst pass_frame]. split.
+    + intros H. apply add_pass_fund_inv in H. destruct H as [H|H]; [exact H|discriminate].
+    + apply add_pass_fund.
+  - intros g g' Hin y. clear -Hin. revert Hin. induction zpre as [|[h ph] rest IH]; cbn; [tauto|].
+    intros [E|Hin]; [|apply IH; exact Hin]. inversion E; subst. cbn [fst pass_frame].
+    intros H. apply add_pass_fund_inv in H. destruct H as [H|H]; [exact H|discriminate].
 Qed.
